@@ -19,8 +19,35 @@ def _member_of(n, recs=None):
     return None
 
 
+_PROG = [None]
+_RETAL = {}
+
+
+def _returned_fields(g):
+    """(rec, field) array fields that function g may return a pointer to:  return S->A;  return x;  with x an alias of S->A
+    (a grow step extracted into a helper hands the possibly moved array back to its caller)"""
+    if g.name in _RETAL:
+        return _RETAL[g.name]
+    _RETAL[g.name] = set()
+    if g.entry is None or not g.unit.types[g.d["ret"]].get("ptr"):
+        return set()
+    al = _aliases(g)
+    out = set()
+    for r in g.walk():
+        if r["k"] == "Return" and r.get("c") and r["c"][0] is not None:
+            e = strip(r["c"][0])
+            m = _member_of(e)
+            if m is not None:
+                out.add((m.get("rec"), m["f"]))
+            elif e is not None and e["k"] == "Ref":
+                out |= set(al.get(e["n"], ()))
+    _RETAL[g.name] = out
+    return out
+
+
 def _aliases(f):
-    """local -> set of `S->A` member field names it was assigned from (x = S->A; x = realloc(S->A, ..))"""
+    """local -> set of `S->A` member field names it was assigned from (x = S->A; x = realloc(S->A, ..); x = helper(S) where the
+    helper returns S->A)"""
     out = {}
     for n in f.walk():
         tgt = rhs = None
@@ -37,6 +64,13 @@ def _aliases(f):
         cands = [rhs]
         if rhs["k"] == "Call" and rhs.get("fn") == "realloc":
             cands = [strip(args(rhs)[0])]
+        elif rhs["k"] == "Call" and rhs.get("fn") and _PROG[0] is not None:
+            g = _PROG[0].func(rhs["fn"])
+            if g is not None and g is not f and g.entry is not None:
+                rf = _returned_fields(g)
+                if rf:
+                    out.setdefault(tname, set()).update(rf)
+                    continue
         for c in cands:
             m = _member_of(c)
             if m is not None:
@@ -314,6 +348,8 @@ class _Pending(Flow):
 
 
 def run(chk, P, rule="R-TAILZERO", only_arrays=None, min_arrays=1):
+    _PROG[0] = P
+    _RETAL.clear()
     found = discover(P)
     n_inst = 0
     narr = 0
